@@ -36,6 +36,7 @@ for p in $props; do
   # changes seeded by independent sub-agents (seeded/<id>/patch.diff, expected obligation in seeded/<id>/expect)
   for m in seeded/${p}*/patch.diff; do
     [ -f "$m" ] || continue
+    [ -f "$(dirname $m)/expect" ] || { echo "skip $m (recorded as not caught, see its meta.json)"; continue; }
     exp=$(cat "$(dirname $m)/expect" 2>/dev/null)
     if ! git -C "$REPO" apply "$PWD/$m" 2>/dev/null; then echo "SELFTEST-FAIL $m does not apply"; fail=1; continue; fi
     out=$(./check $p quick 2>&1); rc=$?
